@@ -354,6 +354,42 @@ func opts() []val[GOpt[RLow]] {
 	return vs
 }
 
+// records, tuples and union payloads that CONTAIN union values (also the same case with
+// a slice payload on both sides: the struct is statically comparable, its contents are not)
+func rus(depth int) []val[RU] {
+	us := sample(unions(depth), 16)
+	var vs []val[RU]
+	for i, a := range us {
+		for _, tag := range []string{"t", "u"} {
+			b := us[(i*7+3)%len(us)]
+			vs = append(vs, val[RU]{"RU{" + tag + "," + a.canon + "," + b.canon + "}", a.path + "/" + b.path, RU{Tag: tag, Sh: a.v, low: b.v}})
+		}
+		// the same union value in both positions
+		vs = append(vs, val[RU]{"RU{t," + a.canon + "," + a.canon + "}", "same:" + a.path, RU{Tag: "t", Sh: a.v, low: a.v}})
+	}
+	return vs
+}
+
+func tupUs(depth int) []val[frt.Tuple2[int, U]] {
+	var vs []val[frt.Tuple2[int, U]]
+	for _, a := range sample(unions(depth), 24) {
+		for _, i := range pick(ints(), 1, 3) {
+			vs = append(vs, val[frt.Tuple2[int, U]]{"(" + i.canon + "," + a.canon + ")", i.path + "/" + a.path, frt.NewTuple2(i.v, a.v)})
+		}
+	}
+	return vs
+}
+
+func ws(depth int) []val[W] {
+	var vs []val[W]
+	vs = append(vs, val[W]{"WN", "New_W_WN", New_W_WN})
+	for _, a := range sample(unions(depth), 20) {
+		vs = append(vs, val[W]{"WU(" + a.canon + ")", "New_W_WU/" + a.path, New_W_WU(a.v)})
+		vs = append(vs, val[W]{"WT(1," + a.canon + ")", "New_W_WT/" + a.path, New_W_WT(frt.NewTuple2(1, a.v))})
+	}
+	return vs
+}
+
 func sliceOfSlices(depth int) []val[[][]int] {
 	in := sample(intSlices(depth), 16)
 	var vs []val[[][]int]
@@ -391,6 +427,9 @@ func Run() {
 	checkType("tuple int*[]int*RLow", tup3s(depth), frt.OpEqual[frt.Tuple3[int, []int, RLow]], frt.OpNotEqual[frt.Tuple3[int, []int, RLow]], tri)
 	checkType("union U", unions(depth), frt.OpEqual[U], frt.OpNotEqual[U], tri)
 	checkType("[]U", unionSlices(depth), frt.OpEqual[[]U], frt.OpNotEqual[[]U], tri)
+	checkType("record RU (union-typed fields, upper and lower case)", rus(depth), frt.OpEqual[RU], frt.OpNotEqual[RU], tri)
+	checkType("tuple int*U", tupUs(depth), frt.OpEqual[frt.Tuple2[int, U]], frt.OpNotEqual[frt.Tuple2[int, U]], tri)
+	checkType("union W (payloads containing unions)", ws(depth), frt.OpEqual[W], frt.OpNotEqual[W], tri)
 	checkType("generic record GBox<int>", boxes(), frt.OpEqual[GBox[int]], frt.OpNotEqual[GBox[int]], tri)
 	checkType("generic record GBox<[]int>", sboxes(depth), frt.OpEqual[GBox[[]int]], frt.OpNotEqual[GBox[[]int]], tri)
 	checkType("generic union GOpt<RLow>", opts(), frt.OpEqual[GOpt[RLow]], frt.OpNotEqual[GOpt[RLow]], tri)
@@ -402,6 +441,9 @@ func Run() {
 	checkType("Folang = on RNest (emitted)", nests(depth), EqNest, nil, 0)
 	checkType("Folang = on int*string (emitted)", tups(), EqTup, nil, 0)
 	checkType("Folang = on GBox<int> (emitted)", boxes(), EqBox, nil, 0)
+	checkType("Folang = / <> on RU (emitted)", rus(depth), EqRU, NeRU, 0)
+	checkType("Folang = on W (emitted)", ws(depth), EqW, nil, 0)
+	checkType("Folang = on int*U (emitted)", tupUs(depth), EqTupU, nil, 0)
 	emit(map[string]any{"t": "stat", "k": "pairs_per_type", "v": perType})
 	emit(map[string]any{"t": "stat", "k": "types", "v": len(perType)})
 	emit(map[string]any{"t": "stat", "k": "panics_per_type", "v": panics})
